@@ -1,2 +1,9 @@
+"""Auto-discovery: every translate/gen_<name>.py exposing generate(repo) -> {relpath: content}
+is registered under <name>."""
+import os
 from . import register
-# register("suites", "suites")   -> translate/suites.py : generate(repo)
+
+_here = os.path.dirname(os.path.abspath(__file__))
+for _f in sorted(os.listdir(_here)):
+    if _f.startswith("gen_") and _f.endswith(".py"):
+        register(_f[4:-3], _f[:-3])
